@@ -115,8 +115,12 @@ def _from_file(v, text, exp):
     tmp = tempfile.mkdtemp(prefix="svc13_")
     try:
         path = os.path.join(tmp, "input.dip")
+        # blank lines do not change the result: the file may begin with one (or with a line of blanks)
+        lead = ["", "\n", "   \n\n"][len(text) % 3]
+        if lead:
+            v.label("file_begins_with_a_blank_line")
         with open(path, "w", newline="") as f:
-            f.write(text)
+            f.write(lead + text)
         try:
             with DIP(name=f"c13_{next(_uid)}") as p:
                 p.add_file(path)
